@@ -454,7 +454,9 @@ func (m *Machine) checkCounters(op string) {
 		for _, w := range m.E.Mints {
 			for _, id := range w.KSOrder {
 				c := h.Inner().GetKeysetCounter(id)
-				outs := m.derived(h.Mnemonic, id, c+24)
+				// look well past the stored counter: outputs derived from a counter that belongs to another keyset
+				// of this wallet land far away from this keyset's own counter
+				outs := m.derived(h.Mnemonic, id, max(c, m.MaxStoredCounter(h))+64)
 				for _, o := range outs {
 					if o.counter >= c && signed[o.B] {
 						// edge-triggered: report a (seed, keyset) once, at the operation that caused it
